@@ -1,6 +1,7 @@
 import importlib
 import os
 import sys
+import time
 import traceback
 
 
@@ -72,6 +73,18 @@ def main():
     seed = int(os.environ.get('VERIF_SEED', '0') or 0)
     mod = importlib.import_module(f'harness.props.{prop.lower()}')
     watchdog(prop, tier)
+    # some fall-backs of the library send SIGTERM to the process which called them (ThreadWorker.terminate(force=True), a remote
+    # worker whose control connection is gone): that must not end the check silently - it is counted, the checks look at it
+    import signal
+    from harness import core
+
+    def on_sigterm(signum, frame):
+        core.SIGTERMS_RECEIVED.append(time.time())
+        if not core.SIGTERM_GUARD[0]:
+            # not inside a scenario that watches for it: somebody wants this check to stop
+            kill_descendants()
+            os._exit(143)
+    signal.signal(signal.SIGTERM, on_sigterm)
     try:
         code = mod.main(tier, seed, replay)
     except SystemExit:
